@@ -14,7 +14,7 @@ import (
 func init() {
 	register(&Prop{
 		ID:         "C17",
-		Decided:    "(1) the group key encoder is uniquely decodable and NULL-distinct (keyenc); (2) in processRow the row is fed to the group's aggregates before the predicate is evaluated, delivery is reachable only on the true edge of shouldFire, and on every firing path the group is deleted (under its own key, while the lock is still held) before the lock is released for delivery — the group restarts empty and cannot fire twice; (3) each new group gets its own accumulators (prototype.New()), never the prototype; (3b) every aggregate reference of the predicate gets a placeholder numbered by its position (per-spec running aggregates cannot be shared and fed twice); (4) shouldFire binds each placeholder to exactly the aggregate of its spec (the output alias when reused, its own trigger aggregate otherwise); (5) every aggregate name recognised inside TRIGGER WHEN is registered as an aggregator; (6) only the Start goroutine receives from triggerChan; groups/stopped are accessed under gw.mu. Also: in the window's methods that send on its output channel, every receive from that channel (drop-oldest eviction) is followed on every path by an increment of droppedCount (flow/evicted-result-counted). Also: in processRow every path from feeding the row into the aggregates to a return passes the evaluation of TRIGGER WHEN (flow/trigger-evaluated-every-row).",
+		Decided:    "(1) the group key encoder is uniquely decodable and NULL-distinct (keyenc); (2) in processRow the row is fed to the group's aggregates before the predicate is evaluated, delivery is reachable only on the true edge of shouldFire, and on every firing path the group is deleted (under its own key, while the lock is still held) before the lock is released for delivery — the group restarts empty and cannot fire twice; (3) each new group gets its own accumulators (prototype.New()), never the prototype; (3b) every aggregate reference of the predicate gets a placeholder numbered by its position (per-spec running aggregates cannot be shared and fed twice); (4) shouldFire binds each placeholder to exactly the aggregate of its spec (the output alias when reused, its own trigger aggregate otherwise); (5) every aggregate name recognised inside TRIGGER WHEN is registered as an aggregator; (6) only the Start goroutine receives from triggerChan; groups/stopped are accessed under gw.mu. Also: in the window's methods that send on its output channel, every receive from that channel (drop-oldest eviction) is followed on every path by an increment of droppedCount (flow/evicted-result-counted). Also: in processRow every path from feeding the row into the aggregates to a return passes the evaluation of TRIGGER WHEN (flow/trigger-evaluated-every-row). Also: newGroupState creates an instance of every output and every trigger-only aggregate (aggstate/fresh-group#instances-at-creation): an aggregate without input reports its empty value (COUNT = 0), not 'missing'.",
 		NotDecided: "the textual rewriting of the predicate and its binding to SELECT aggregates (regex based), aggregate values, NULL inputs' effect on values.",
 		Run:        runC17,
 	})
